@@ -747,7 +747,11 @@ int main (int argc, char **argv)
 	if (getenv ("SFDRIVE_TMP")) tmpdir = getenv ("SFDRIVE_TMP") ;
 	mkdir (tmpdir, 0755) ;
 	if (getenv ("SFD_RES"))
-	{	snprintf (res_tmp, sizeof (res_tmp), "%s/lt_%d", tmpdir, (int) getpid ()) ; mkdir (res_tmp, 0755) ; setenv ("TMPDIR", res_tmp, 1) ;
+	{	{	/* a directory of its own: process ids are re-used, and a run that was killed leaves its directory (with files) behind */
+			struct timespec ts ; clock_gettime (CLOCK_MONOTONIC, &ts) ;
+			snprintf (res_tmp, sizeof (res_tmp), "%s/lt_%d_%lld", tmpdir, (int) getpid (), (long long) ts.tv_sec * 1000000000LL + ts.tv_nsec) ;
+			}
+		mkdir (res_tmp, 0755) ; setenv ("TMPDIR", res_tmp, 1) ;
 		{	/* warm-up: one-time allocations of the C library (time zone data, stdio, locale, error strings) must not be charged to a handle */
 			time_t t0 = 86400 ; struct tm tmv ; char wb [128] ; localtime_r (&t0, &tmv) ; gmtime_r (&t0, &tmv) ; tzset () ; (void) localtime (&t0) ; (void) gmtime (&t0) ;
 			strftime (wb, sizeof (wb), "%c", &tmv) ; snprintf (wb, sizeof (wb), "%f %s", 1.5, strerror (ENOENT)) ;
